@@ -91,8 +91,19 @@ type stageDecl struct {
 
 func (pl *plit) lifecycleStages() map[string]*stageDecl {
 	out := map[string]*stageDecl{}
+	// stage constructors: `func endLifecycleStage(id StageID, name string) step.LifecycleStage { return step.LifecycleStage{ID: string(id), …} }`
+	type ctor struct {
+		param int
+		sd    *stageDecl
+	}
+	ctors := map[string]*ctor{}
 	for _, f := range pl.pkg.Syntax {
+		var enclosing *ast.FuncDecl
 		ast.Inspect(f, func(n ast.Node) bool {
+			if fd, ok := n.(*ast.FuncDecl); ok {
+				enclosing = fd
+				return true
+			}
 			cl, ok := n.(*ast.CompositeLit)
 			if !ok {
 				return true
@@ -102,6 +113,36 @@ func (pl *plit) lifecycleStages() map[string]*stageDecl {
 				return true
 			}
 			sd := &stageDecl{nexts: map[string]string{}}
+			idParam := -1
+			if enclosing != nil && enclosing.Recv == nil && enclosing.Body != nil && cl.Pos() >= enclosing.Body.Pos() && cl.End() <= enclosing.Body.End() {
+				for _, el := range cl.Elts {
+					kv, ok := el.(*ast.KeyValueExpr)
+					if !ok {
+						continue
+					}
+					if id, ok := kv.Key.(*ast.Ident); !ok || id.Name != "ID" {
+						continue
+					}
+					e := kv.Value
+					if call, ok := e.(*ast.CallExpr); ok && len(call.Args) == 1 {
+						e = call.Args[0] // string(id)
+					}
+					if nm, ok := e.(*ast.Ident); ok {
+						k := 0
+						for _, fld := range enclosing.Type.Params.List {
+							for _, pn := range fld.Names {
+								if pn.Name == nm.Name {
+									idParam = k
+								}
+								k++
+							}
+						}
+					}
+				}
+				if idParam >= 0 {
+					ctors[enclosing.Name.Name] = &ctor{param: idParam, sd: sd}
+				}
+			}
 			for _, el := range cl.Elts {
 				kv, ok := el.(*ast.KeyValueExpr)
 				if !ok {
@@ -134,6 +175,28 @@ func (pl *plit) lifecycleStages() map[string]*stageDecl {
 			}
 			return false
 		})
+	}
+	if len(ctors) > 0 {
+		for _, f := range pl.pkg.Syntax {
+			ast.Inspect(f, func(n ast.Node) bool {
+				call, ok := n.(*ast.CallExpr)
+				if !ok {
+					return true
+				}
+				fn, ok := call.Fun.(*ast.Ident)
+				if !ok {
+					return true
+				}
+				ct := ctors[fn.Name]
+				if ct == nil || ct.param >= len(call.Args) {
+					return true
+				}
+				if id, ok := pl.constStr(call.Args[ct.param]); ok && id != "" {
+					out[id] = &stageDecl{id: id, nexts: ct.sd.nexts}
+				}
+				return true
+			})
+		}
 	}
 	return out
 }
